@@ -4,6 +4,7 @@
   disagree (results, returned ids, contents read, allocator snapshots).
 -/
 import TxVerif.Model.Engine
+import TxVerif.Model.AllocOps
 namespace TxVerif
 
 structure EngSt where
@@ -11,6 +12,7 @@ structure EngSt where
   tx : Option TxSt := none
   created : Bool := false
   resync : Bool := false      -- adopt the next snapshot line (after an unmodelled operation)
+  resized : Bool := false     -- the maximum size was changed on open (allocWF does not cover shrinking)
   checked : Nat := 0
   mismatches : List String := []
   deriving Inhabited
@@ -87,7 +89,12 @@ def adoptSnap (s : EngSt) (toks : List String) : EngSt :=
   let f2 : FileSt := { s.f with alloc := a2, walPages := wp, walMap := wm }
   { s with f := f2, resync := false }
 
-def endTx (s : EngSt) (f : FileSt) : EngSt := { s with f := f, tx := none }
+/-- end of a transaction: the model state must satisfy the well-formedness the theorems assume
+    (validates on real histories that the hypotheses are met; skipped once a resize happened) -/
+def endTx (s : EngSt) (f : FileSt) : EngSt :=
+  let s := { s with f := f, tx := none }
+  if s.resized || allocWF f.alloc then s
+  else { s with mismatches := s.mismatches ++ [s!"model invariant allocWF violated: {snapLine f none}"] }
 
 /-- process one trace line -/
 def engStep (s : EngSt) (line : String) : EngSt :=
@@ -108,13 +115,15 @@ def engStep (s : EngSt) (line : String) : EngSt :=
       let ps := fieldNat rest "ps"
       { s with f := FileSt.create ps (fieldNat rest "maxsize" / ps) (fieldNat rest "meta"), created := true, tx := none }.ok
     else { s with f := s.f.reopen, tx := none }.ok
-  | "resize-grow" :: _ => { s with resync := true, tx := none, f := s.f.reopen }
-  | "resize-shrink" :: _ => { s with resync := true, tx := none, f := s.f.reopen }
-  | "resize-unbound" :: _ => { s with resync := true, tx := none, f := s.f.reopen }
+  | "resize-grow" :: _ => { s with resync := true, resized := true, tx := none, f := s.f.reopen }
+  | "resize-shrink" :: _ => { s with resync := true, resized := true, tx := none, f := s.f.reopen }
+  | "resize-unbound" :: _ => { s with resync := true, resized := true, tx := none, f := s.f.reopen }
   | ["closefile"] => s
   | "begin" :: rest =>
     if rkind != "ok" then s.miss line "begin failed" else
-    { s with tx := some (s.f.beginTx ((field rest "ovf").getD "false" == "true") (fieldNat rest "grow") (fieldNat rest "wal")) }.ok
+    let ovf := (field rest "ovf").getD "false" == "true"
+    -- states reached after a transaction used the overflow area are outside `allocWF`
+    { s with tx := some (s.f.beginTx ovf (fieldNat rest "grow") (fieldNat rest "wal")), resized := s.resized || ovf }.ok
   | ["alloc", n] =>
     match s.tx, n.toNat? with
     | some tx, some n =>
